@@ -29,6 +29,20 @@ functions/modules) denote the immutable placeholder LEAF.  Parameters listed in
 SCALAR_PARAMS are documented as numbers/strings/booleans; they are rebound to LEAF on
 entry (an immutable object cannot be modified, `t += dt` rebinds).
 
+Checked, not trusted (harness/c19_tables.py, on every ./check C19): every table entry is called on the installed
+numpy/networkx/scipy/builtins with representative arguments and the concrete heap before/after is compared with what the
+category claims; the statement mapping is tested differentially on translate/effects_corpus/*.py (a function the checker
+accepts must not modify an argument when it is run).  What that validation found and what was changed because of it:
+  a.extend(b) / d.update(b) / x += b / x[i:j] = b / G.add_*_from(b) / nx.set_*_attributes store what b HOLDS (BULK_STORE);
+  y[k] op= v modifies a mutable ELEMENT of y in place; y[3] also reads the value under the key 3 of a dictionary;
+  list/tuple/sorted/reversed/deque of a 2-d array hold row VIEWS (ELEMENT_VIEWS); dict(pairs) / dict(a=p) hold the values;
+  heapq.heappop returns an element; reverse/byteswap/set_integrator/set_initial_value/__iadd__ return (a view of) the receiver;
+  np.sum / np.prod of a Python object and sum(xs, start) may return an argument; np.atleast_1d(x, y) views every argument;
+  copy.copy(G) shares G's storage; out= / copy= / inplace= / as_view= / where= / start= and positional output buffers
+  (np.sqrt(x, out), a.dot(b, out), a.max(axis, out), shift(x, s, out), G.copy(as_view)) are refused; so are unbound method
+  calls (list.append(x, 1)), computed callees (getattr(x, 'append')(1)) and */** in library calls; default values of lambdas /
+  nested functions are held by the function object.
+
 Anything else makes the translator exit non-zero naming the construct and the line."""
 import ast, sys, os, argparse, warnings
 warnings.filterwarnings('ignore')
@@ -43,17 +57,17 @@ SCALAR_PARAMS = {
 # methods that modify their receiver in place; value = does the call return an element of the receiver
 MUTATING_METHODS = {
     'append': False, 'extend': False, 'insert': False, 'remove': False, 'pop': True, 'popitem': True,
-    'clear': False, 'sort': False, 'reverse': False, 'update': False, 'add': False, 'discard': False,
+    'clear': False, 'sort': False, 'reverse': True, 'update': False, 'add': False, 'discard': False,
     'setdefault': True, 'difference_update': False, 'intersection_update': False,
     'symmetric_difference_update': False, 'popleft': True, 'appendleft': False,
     'add_node': False, 'add_edge': False, 'add_nodes_from': False, 'add_edges_from': False,
     'add_weighted_edges_from': False, 'remove_node': False, 'remove_edge': False,
     'remove_nodes_from': False, 'remove_edges_from': False, 'clear_edges': False,
     'fill': False, 'resize': False, 'itemset': False, 'put': False, 'setfield': False,
-    'setflags': False, 'partition': False, 'byteswap': False,
+    'setflags': False, 'partition': False, 'byteswap': True,
     'random_removal': True, 'update_total_weight': False, '_update_max_weight': False,
-    'set_integrator': False, 'set_initial_value': False, 'integrate': False, 'subtract': False,
-    'pop_and_run': False, '__setitem__': False, '__delitem__': False, '__iadd__': False,
+    'set_integrator': True, 'set_initial_value': True, 'integrate': True, 'subtract': False,
+    'pop_and_run': False, '__setitem__': False, '__delitem__': False, '__iadd__': True,
 }
 # non-modifying methods returning an immutable scalar / a freshly computed numeric array
 LEAF_METHODS = {'order', 'has_node', 'has_edge', 'total_weight', 'is_directed', 'index', 'format',
@@ -84,8 +98,8 @@ LEAF_FUNCS = {
     'random.gauss', 'random.paretovariate', 'random.randrange',
     'np.random.binomial', 'np.random.random', 'np.random.seed', 'np.random.poisson',
     'np.exp', 'np.log', 'np.sqrt', 'np.zeros', 'np.ones', 'np.linspace', 'np.arange', 'np.dot',
-    'np.sum', 'np.empty', 'np.identity', 'np.eye', 'np.outer', 'np.isnan', 'np.abs', 'np.power',
-    'np.zeros_like', 'np.ones_like', 'np.mean', 'np.cumsum', 'np.prod',
+    'np.empty', 'np.identity', 'np.eye', 'np.outer', 'np.isnan', 'np.abs', 'np.power',
+    'np.zeros_like', 'np.ones_like', 'np.mean', 'np.cumsum',
     'math.exp', 'math.log', 'math.sqrt', 'math.floor', 'math.ceil',
     'binom', 'scipy.special.binom', 'shift', 'nx.is_directed', 'nx.number_of_nodes',
     'EoN.EoNError', 'EoNError', 'Exception', 'TypeError', 'ValueError', 'KeyError',
@@ -93,7 +107,7 @@ LEAF_FUNCS = {
 }
 # fresh container holding (a copy of) what the arguments hold
 COPY_FUNCS = {'list', 'set', 'frozenset', 'tuple', 'dict', 'sorted', 'reversed', 'Counter', 'np.array',
-              'np.concatenate', 'np.copy', 'copy.copy', 'np.hstack', 'np.vstack', 'np.stack',
+              'np.concatenate', 'np.copy', 'np.hstack', 'np.vstack', 'np.stack',
               'random.sample', 'deque', 'collections.deque', 'np.fromiter'}
 # fresh object that may hold anything reachable from the arguments
 DEEP_FUNCS = {'zip', 'enumerate', 'iter', 'map', 'filter', 'copy.deepcopy',
@@ -104,16 +118,45 @@ DEEP_FUNCS = {'zip', 'enumerate', 'iter', 'map', 'filter', 'copy.deepcopy',
               'nx.node_connected_component', 'nx.subgraph', 'nx.to_directed',
               'EoN.Simulation_Investigation', 'Simulation_Investigation', 'integrate.ode'}
 # may return one of the objects held by the arguments
-REACH_FUNCS = {'max', 'min', 'next', 'random.choice', 'getattr'}
+REACH_FUNCS = {'max', 'min', 'next', 'random.choice', 'getattr', 'np.sum', 'np.prod'}
 # view of the first argument
 VIEW_FUNCS = {'np.asarray', 'np.asanyarray', 'np.reshape', 'np.ravel', 'np.transpose', 'np.squeeze',
-              'np.atleast_1d', 'np.atleast_2d', 'np.ascontiguousarray', 'np.real', 'np.diagonal', 'np.diag'}
+              'np.atleast_1d', 'np.atleast_2d', 'np.ascontiguousarray', 'np.real', 'np.diagonal', 'np.diag', 'copy.copy'}
 # library functions that modify their first argument in place
 MUTATING_FUNCS = {'random.shuffle', 'heapq.heappush', 'heapq.heappop', 'heapq.heapify', 'np.put',
                   'np.fill_diagonal', 'np.copyto', 'np.place', 'np.putmask', 'setattr', 'delattr',
                   'nx.set_node_attributes', 'nx.set_edge_attributes', 'np.random.shuffle'}
+# mutating library functions that return an element of their first argument
+MUTATING_FUNCS_RETURNING = {'heapq.heappop'}
+# mutating methods / functions that copy the CONTENTS of their arguments into the receiver (a.extend(b): a holds
+# what b holds; d.update(pairs): what the pairs hold; G.add_nodes_from(view): ...): everything reachable from the
+# arguments is stored (one object per store, in a loop).  Also used for  x += v  and  x[i:j] = v.
+BULK_STORE = {'extend', 'update', '__iadd__', 'add_nodes_from', 'add_edges_from', 'add_weighted_edges_from',
+              'intersection_update', 'symmetric_difference_update', 'difference_update', 'subtract',
+              'nx.set_node_attributes', 'nx.set_edge_attributes', 'np.put', 'np.copyto', 'np.place', 'np.putmask'}
+# keyword arguments of library calls that change what the call modifies / what its result shares (validated by
+# harness/c19_tables.py: every table entry is tried with each of them): refused
+REFUSED_KEYWORDS = {'out', 'copy', 'inplace', 'as_view', 'where', 'start'}
+# largest number of positional arguments accepted for a library function / method whose later positional
+# parameters include an output buffer (np.sqrt(x, out), a.dot(b, out), a.max(axis, out), G.copy(as_view))
+MAX_POSITIONAL = {'np.exp': 1, 'np.log': 1, 'np.sqrt': 1, 'np.abs': 1, 'np.isnan': 1, 'np.power': 2, 'binom': 2,
+                  'scipy.special.binom': 2, 'np.dot': 2, 'np.outer': 2, 'np.cumsum': 2, 'np.mean': 2, 'np.sum': 2,
+                  'np.prod': 2, 'math.exp': 1, 'math.log': 2, 'math.sqrt': 1, 'copy.deepcopy': 1, 'copy.copy': 1,
+                  'np.concatenate': 2, 'np.hstack': 1, 'np.vstack': 1, 'np.stack': 2, 'np.copy': 1, 'np.array': 2,
+                  'np.fromiter': 2, 'np.linspace': 3, 'shift': 2,
+                  '.dot': 1, '.max': 1, '.min': 1, '.sum': 1, '.mean': 1, '.cumsum': 1, '.cumprod': 1, '.all': 1, '.any': 1,
+                  '.copy': 0, '.astype': 1, '.toarray': 0, '.todense': 0, '.tolist': 0, '.flatten': 1, '.byteswap': 0,
+                  '.reverse': 0, '.sort': 0}
+# builders of Python containers: iterating an ndarray argument yields VIEWS of it (list(A) of a 2-d array is a
+# list of row views), so the result may hold views of its arguments besides what they hold
+ELEMENT_VIEWS = {'list', 'tuple', 'sorted', 'reversed', 'set', 'frozenset', 'deque', 'collections.deque',
+                 'random.sample', 'Counter', 'dict'}
+# COPY_FUNCS that look two levels down: np.array([[a], [b]]), dict([(k, v)])
+TWO_LEVEL_COPY = {'dict'}
+VIEW_ALL_ARGS = True      # np.atleast_1d(x, y): the result may view any argument
 ODE_FUNCS = {'integrate.odeint', '_my_odeint_', 'scipy.integrate.odeint'}
 DEFAULT_FACTORIES = {'list', 'dict', 'set', 'int', 'float', 'str', 'bool', 'tuple'}
+NUMERIC_CTORS = {'np.zeros', 'np.ones', 'np.empty', 'np.linspace', 'np.arange', 'np.identity', 'np.eye'}
 MODULES = {'np', 'nx', 'random', 'math', 'integrate', 'scipy', 'EoN', 'heapq', 'copy', 'collections', 'sys', 'os', 'warnings'}
 BUILTIN_VALUES = {'None', 'True', 'False', 'list', 'dict', 'set', 'int', 'float', 'str', 'tuple', 'bool', 'len',
                   'defaultdict', 'Counter', 'print', 'range', 'sum', 'max', 'min', 'sorted', 'zip', 'enumerate',
@@ -190,6 +233,7 @@ class Fun:
         self.assigned = self.assigned_names(self.node)
         self.pyc = self.python_containers(self.node)
         self.pydict = self.python_containers(self.node, dicts=True)
+        self.numeric = self.python_containers(self.node, numeric=True)
 
     # ------------------------------------------------------------ helpers
     def err(self, node, what):
@@ -212,12 +256,18 @@ class Fun:
     CONTAINER_CALLS = {'defaultdict', 'dict', 'list', 'set', 'Counter', 'sorted', 'tuple', 'frozenset', 'myQueue', '_ListDict_'}
 
     @classmethod
-    def python_containers(cls, fn, dicts=False):
+    def python_containers(cls, fn, dicts=False, numeric=False):
         """names of the function that are only ever bound to freshly built Python containers
         (displays, comprehensions, dict()/list()/set()/defaultdict()...).  Indexing or iterating
         such an object yields one of its elements, never a view of it (views exist for ndarrays)."""
         good, bad = set(), set()
         def is_container(v):
+            if numeric:
+                # np.zeros(..) / np.ones / np.empty / np.linspace / np.arange / np.identity / np.eye without an object dtype:
+                # an array of numbers; its elements are scalars or views of its own buffer, it holds no references
+                return (isinstance(v, ast.Call) and dotted(v.func) in NUMERIC_CTORS and
+                        all(k.arg in ('shape', 'num', 'endpoint') or (k.arg == 'dtype' and isinstance(k.value, ast.Name) and k.value.id in ('float', 'int', 'bool', 'complex'))
+                            for k in v.keywords))
             if dicts:
                 return isinstance(v, (ast.Dict, ast.DictComp)) or (
                     isinstance(v, ast.Call) and isinstance(v.func, ast.Name) and v.func.id in ('defaultdict', 'dict', 'Counter'))
@@ -238,6 +288,8 @@ class Fun:
                     if isinstance(m, ast.Name):
                         bad.add(m.id)
             elif isinstance(n, (ast.AugAssign, ast.AnnAssign, ast.NamedExpr)):
+                if numeric and isinstance(n, ast.AugAssign) and isinstance(n.target, ast.Subscript):
+                    continue        # a[i] += x leaves a the array of numbers it was
                 for m in ast.walk(n.target):
                     if isinstance(m, ast.Name):
                         bad.add(m.id)
@@ -284,6 +336,13 @@ class Fun:
                 b = b.value
             return isinstance(b, ast.Attribute) and b.attr in REACH_ATTRS
         return False
+
+    @staticmethod
+    def not_a_mapping(e):
+        """syntactically an iterable of elements, not a mapping: x.values()/keys()/items(), a list/set display or comprehension"""
+        if isinstance(e, ast.Call) and isinstance(e.func, ast.Attribute) and e.func.attr in ('values', 'keys', 'items') and not e.args and not e.keywords:
+            return True
+        return isinstance(e, (ast.List, ast.Set, ast.ListComp, ast.SetComp, ast.GeneratorExp, ast.Tuple))
 
     def fresh(self):
         v = self.nvars
@@ -336,11 +395,41 @@ class Fun:
         if y == self.LEAF:
             return self.LEAF
         v = self.fresh()
+        ld = ('load', y, field)
+        if 1 <= field < 60:
+            # y[3]: tuple position 3 (field 4), an unknown position (0), or the VALUE under the key 3 of a dictionary /
+            # an element stored by a slice assignment (both live under VALS, which a positional load does not match)
+            ld = ('choice', ld, ('load', y, VALS))
         if pyc:
-            out.append(('assign', v, ('load', y, field)))
+            out.append(('assign', v, ld))
             return v
-        out.append(('assign', v, ('choice', ('load', y, field), ('alloc', self.mod.new_site(), field, [], [y], [], [y]))))
+        out.append(('assign', v, ('choice', ld, ('alloc', self.mod.new_site(), field, [], [y], [], [y]))))
         return v
+
+    def store(self, out, line, recv, field, vals, bulk):
+        """recv now holds vals (bulk: anything reachable from vals, one object per store)"""
+        vals = [v for v in dict.fromkeys(vals) if v != self.LEAF]
+        if recv == self.LEAF:
+            return
+        if not bulk or not vals:
+            out.append(('write', line, recv, field, vals))
+            return
+        t = self.fresh()
+        out.append(('write', line, recv, field, vals))
+        out.append(('loop', [('assign', t, ('reach', vals)), ('write', line, recv, field, [t])]))
+
+    def guard_call(self, c, name):
+        """library call: refuse the keywords and the positional arities whose meaning the tables do not cover"""
+        for k in c.keywords:
+            if k.arg is None:
+                self.err(c, '** in a call of the library function/method %s' % name)
+            if k.arg in REFUSED_KEYWORDS:
+                self.err(c, 'keyword %s= in a call of %s (changes what the call modifies or shares)' % (k.arg, name))
+        for a in c.args:
+            if isinstance(a, ast.Starred):
+                self.err(c, '*args in a call of the library function/method %s' % name)
+        if name in MAX_POSITIONAL and len(c.args) > MAX_POSITIONAL[name]:
+            self.err(c, '%d positional arguments in a call of %s (a later positional parameter is an output buffer / a view switch)' % (len(c.args), name))
 
     def weak(self, out, alts):
         alts = list(dict.fromkeys(alts))
@@ -402,7 +491,9 @@ class Fun:
             return self.LEAF
         if isinstance(e.op, ast.Mod) and isinstance(e.left, ast.Constant):
             return self.LEAF
-        return self.alloc(out, cp=[a, b])       # list + list holds the elements of both
+        if isinstance(e.op, (ast.Div, ast.FloorDiv, ast.Pow, ast.MatMult)):
+            return self.alloc(out)              # no container implements / // ** @: a new number or numeric array
+        return self.alloc(out, cp=[a, b])       # list + list, list * n, set | set hold the elements of the operands
 
     def e_BoolOp(self, out, e):
         return self.weak(out, self.exprs(out, e.values))
@@ -495,6 +586,7 @@ class Fun:
         free of writes and of calls to EoN functions (it runs later, in someone else's hands)"""
         if args.vararg or args.kwarg or args.kwonlyargs:
             self.err(node, 'closure with */** parameters')
+        held_defaults = [self.expr(out, d) for d in args.defaults]       # evaluated now, kept by the function object
         self.scopes.append({})
         scratch = []
         for a in args.args:
@@ -544,7 +636,7 @@ class Fun:
         b = bad(scratch)
         if b:
             self.err(node, 'closure body with a write or a call to an EoN function (%s)' % (b,))
-        return self.alloc(out, sh=sorted(free))
+        return self.alloc(out, sh=sorted(free) + held_defaults)
 
     def comp(self, out, e, elts):
         acc = self.alloc(out)
@@ -601,16 +693,21 @@ class Fun:
         # ---- method-like calls on a local object ---------------------------
         if isinstance(f, ast.Attribute) and not (d and d.split('.')[0] in MODULES and not self.is_local(d.split('.')[0])):
             m = f.attr
+            if isinstance(f.value, ast.Name) and f.value.id in BUILTIN_VALUES and not self.is_local(f.value.id):
+                self.err(c, 'call of the unbound method %s.%s (the receiver is an argument)' % (f.value.id, m))
             if m == 'add' and len(c.args) >= 2:
                 return self.queue_add(out, c)
             if m == 'pop_and_run':
                 return self.queue_run(out, c)
+            known = m in MUTATING_METHODS or m in LEAF_METHODS or m in DEEP_METHODS or m in COPY_METHODS or m in VIEW_METHODS or m in REACH_METHODS
+            user_object = m in ('insert', 'update', 'remove', 'add_node', 'add_edge')   # **attrs of networkx, weight=/weight_increment= of _ListDict_
+            if known:
+                self.guard_call(c, '.' + m) if not user_object else None
             recv = self.expr(out, f.value)
             args = self.call_args(out, c)
             nl = [a for a in args if a != self.LEAF]
             if m in MUTATING_METHODS:
-                if recv != self.LEAF:
-                    out.append(('write', line, recv, 0, nl))
+                self.store(out, line, recv, 0, nl, m in BULK_STORE)
                 if MUTATING_METHODS[m]:
                     return self.sub(out, recv, VALF)
                 return self.LEAF
@@ -654,7 +751,11 @@ class Fun:
             if d in ('myQueue', '_ListDict_'):
                 self.call_args(out, c)
                 return self.alloc(out)
+            if d in LEAF_FUNCS or d in COPY_FUNCS or d in DEEP_FUNCS or d in REACH_FUNCS or d in VIEW_FUNCS or d in MUTATING_FUNCS:
+                self.guard_call(c, d) if d not in ('dict', 'EoN.Simulation_Investigation', 'Simulation_Investigation') else None
             args = self.call_args(out, c)
+            if d == 'sum' and len(c.args) + len(c.keywords) > 1:
+                return self.opaque(out, args)          # sum(xs, start) is start itself when xs is empty
             if d in LEAF_FUNCS:
                 if d in ('np.zeros', 'np.ones', 'np.linspace', 'np.arange', 'np.dot', 'np.exp', 'np.empty', 'np.outer',
                          'np.zeros_like', 'np.ones_like', 'np.identity', 'np.eye', 'np.cumsum', 'nx.adjacency_matrix',
@@ -664,24 +765,41 @@ class Fun:
             if d in COPY_FUNCS:
                 # np.array([a, b]) / list(x): new container with what the arguments hold; nested
                 # displays were themselves allocated, so copy one more level down for np.array/concatenate
-                r = self.alloc(out, cp=args)
-                if d.startswith('np.'):
+                if d.startswith('np.') or d in TWO_LEVEL_COPY:
                     inner = [self.sub(out, a) for a in args if a != self.LEAF]
-                    r = self.alloc(out, cp=args + inner)
-                return r
+                    kwv = args[len(c.args):] if d == 'dict' else []    # dict(a=p) holds p itself
+                    return self.alloc(out, sh=(inner if d in ELEMENT_VIEWS else []) + kwv, cp=args + inner)
+                if d == 'Counter' and len(c.args) == 1 and not c.keywords and self.not_a_mapping(c.args[0]) and args[0] != self.LEAF:
+                    # Counter(iterable): the elements become KEYS, the values are counts (integers)
+                    r = self.alloc(out)
+                    body = []
+                    t = self.sub(body, args[0], 0, self.is_pyc(c.args[0]))
+                    body.append(('write', line, r, KEYF, [t]))
+                    out.append(('loop', body))
+                    return r
+                if d in ELEMENT_VIEWS:
+                    # list(A) of a 2-d array holds row VIEWS of A: an element, or a new object viewing the argument
+                    inner = [self.sub(out, a) for a, x in zip(args, c.args) if a != self.LEAF and not self.is_pyc(x)]
+                    return self.alloc(out, sh=inner, cp=args)
+                return self.alloc(out, cp=args)
             if d in DEEP_FUNCS:
                 return self.deepfresh(out, args)
             if d in REACH_FUNCS:
                 return self.opaque(out, args)
             if d in VIEW_FUNCS:
-                a0 = args[0] if args else self.LEAF
-                return self.alloc(out, cp=[a0], vw=[a0]) if a0 != self.LEAF else self.alloc(out)
+                return self.alloc(out, cp=args, vw=args)
             if d in MUTATING_FUNCS:
-                if args and args[0] != self.LEAF:
-                    out.append(('write', line, args[0], 0, [a for a in args[1:] if a != self.LEAF]))
+                if args:
+                    self.store(out, line, args[0], 0, args[1:], d in BULK_STORE)
+                    if d in MUTATING_FUNCS_RETURNING:
+                        return self.sub(out, args[0], VALF)
                 return self.LEAF
             self.err(c, 'library function %s is in no table' % d)
         # ---- callbacks: calling a local variable / parameter / closure ------
+        if not isinstance(f, (ast.Name, ast.Lambda)):
+            # getattr(x, 'append')(1), handlers[k](x), make()(x): the callee is computed; only a named user
+            # callback (assumed not to modify its arguments) or a literal lambda is accepted
+            self.err(c, 'call of a computed callee (%s)' % type(f).__name__)
         fv = self.expr(out, f)
         args = self.call_args(out, c)
         return self.opaque(out, [fv] + args)
@@ -866,7 +984,8 @@ class Fun:
             if y != self.LEAF:
                 if k != self.LEAF:
                     out.append(('write', t.lineno, y, KEYF, [k]))
-                out.append(('write', t.lineno, y, VALS, [v] if v != self.LEAF else []))
+                has_slice = any(isinstance(n, ast.Slice) for n in ast.walk(t.slice))
+                self.store(out, t.lineno, y, VALS, [v], has_slice)      # y[i:j] = v stores what v holds
         elif isinstance(t, ast.Attribute):
             y = self.expr(out, t.value)
             if y != self.LEAF:
@@ -912,18 +1031,34 @@ class Fun:
             fresh = []
             nv = self.alloc(fresh, cp=[x, v])
             fresh.append(('assign', x, ('var', nv)))
-            out.append(('if', [('write', s.lineno, x, 0, [v] if v != self.LEAF else [])], fresh))
+            inplace = []
+            self.store(inplace, s.lineno, x, 0, [v], True)       # list += iterable stores what the iterable holds
+            out.append(('if', inplace, fresh))
         elif isinstance(t, ast.Subscript):
             y = self.expr(out, t.value)
             k = self.expr(out, t.slice)
-            if y != self.LEAF:
+            if isinstance(t.value, ast.Name) and t.value.id in self.numeric and not any(t.value.id in sc for sc in self.scopes[1:]):
+                # an array of numbers created in this function: only its own buffer is modified
                 if k != self.LEAF:
                     out.append(('write', s.lineno, y, KEYF, [k]))
                 out.append(('write', s.lineno, y, VALS, [v] if v != self.LEAF else []))
+            elif y != self.LEAF:
+                # y[k] += v  is  e = y[k]; e = e.__iadd__(v); y[k] = e : a mutable element is modified in place
+                el = []
+                e = self.sub(el, y, self.index_field(t.slice), self.is_pyc(t.value))
+                self.store(el, s.lineno, e, 0, [v], True)
+                out.append(('if', el, []))
+                if k != self.LEAF:
+                    out.append(('write', s.lineno, y, KEYF, [k]))
+                self.store(out, s.lineno, y, VALS, [v], True)
         elif isinstance(t, ast.Attribute):
             y = self.expr(out, t.value)
             if y != self.LEAF:
-                out.append(('write', s.lineno, y, 0, [v] if v != self.LEAF else []))
+                el = []
+                e = self.sub(el, y, 0)
+                self.store(el, s.lineno, e, 0, [v], True)
+                out.append(('if', el, []))
+                self.store(out, s.lineno, y, 0, [v], True)
         else:
             self.err(s, 'augmented assignment target')
 
@@ -1145,6 +1280,9 @@ def main():
     L.append('   SCALAR_PARAMS (rebound to the immutable placeholder on entry): %s' % ' '.join(sorted(SCALAR_PARAMS)))
     L.append('   MUTATING_METHODS: %s' % ' '.join(sorted(MUTATING_METHODS)))
     L.append('   MUTATING_FUNCS: %s' % ' '.join(sorted(MUTATING_FUNCS)))
+    L.append('   BULK_STORE (store everything reachable from the arguments): %s' % ' '.join(sorted(BULK_STORE)))
+    L.append('   REFUSED_KEYWORDS of library calls: %s;  MAX_POSITIONAL: %s' % (' '.join(sorted(REFUSED_KEYWORDS)), ' '.join('%s<=%d' % kv for kv in sorted(MAX_POSITIONAL.items()))))
+    L.append('   (every table entry is validated against the installed libraries on every run by harness/c19_tables.py)')
     L.append('   queue handlers: %s' % ' '.join(handlers))
     for n in mod.notes:
         L.append('   note: %s' % n.replace('*)', '* )'))
